@@ -2,8 +2,9 @@ package rules
 
 import (
 	"fmt"
-	"os"
+	"go/token"
 	"go/types"
+	"os"
 	"sort"
 	"strings"
 
@@ -145,6 +146,11 @@ func C14(p *an.Prog, r *an.Report) {
 	}
 	c14ReaderValidates(p, r)
 	c14LengthNarrowing(p, r, "C14.N4")
+	// N9: a parsed list keeps distinct elements (same rule as C01.R9): otherwise a value that
+	// validates is not the value that was serialised
+	c01DistinctElements(p, r, "C14.N9")
+	// N8: declared length fields agree with their data in everything the validators accept
+	c14LenFieldPairs(p, r, "C14.N8")
 	// N7: the key-length-vs-type validators size public keys by public-key columns (same rule as C10.T4)
 	c10PrivateColumns(p, r, "C14.N7")
 	// N6: the invariant the reviewed narrowing in Mapping.Data rests on (same rule as C11.M3)
@@ -524,6 +530,263 @@ func onlyFeedsLogging(v ssa.Value) bool {
 			}
 		}
 		return false
+	}
+	return true
+}
+
+// narrowArith: every +, -, *, << whose result type is an integer narrower than 64 bits, in the
+// library functions reachable from the exported API, cannot wrap: with a and b the exact values of
+// the operands, the exact result lies in the type's range on every path (E11). Arithmetic on wire
+// lengths and counts in uint8/uint16 wraps silently otherwise (2+2+keyLen for keyLen >= 65532,
+// count*44 in a byte), and the wrapped value then passes the very bounds check it was computed for.
+// Operations whose operands are both constants, bit masks and bytes being assembled into wider
+// words (x<<8 | y on the same width after a conversion) are not arithmetic on quantities and are
+// skipped when every operand is a conversion from a narrower type or a constant.
+func narrowArith(p *an.Prog, r *an.Report, rule string, filter func(*ssa.Function) bool) int {
+	b := an.NewBounds(p)
+	b.Axioms = c04IntAxiom
+	roots, _ := c04Roots(p)
+	for _, fn := range p.ExportedAPI() {
+		if len(fn.Blocks) > 0 && fn.Synthetic == "" {
+			roots = append(roots, fn)
+		}
+	}
+	scope := p.Reachable(p.CG(), roots, func(f *ssa.Function) bool { return an.InLib(f) })
+	isRoot := map[*ssa.Function]bool{}
+	for _, f := range roots {
+		isRoot[f] = true
+	}
+	b.IsEntry = func(f *ssa.Function) bool { return isRoot[f] }
+	b.InScope = func(f *ssa.Function) bool { _, ok := scope[f]; return ok }
+	var fns []*ssa.Function
+	for f := range scope {
+		if an.InLib(f) && (filter == nil || filter(f)) {
+			fns = append(fns, f)
+		}
+	}
+	sort.Slice(fns, func(i, j int) bool { return an.FnKey(fns[i]) < an.FnKey(fns[j]) })
+	widening := func(v ssa.Value, to types.Type) bool {
+		switch x := v.(type) {
+		case *ssa.Const:
+			return true
+		case *ssa.Convert:
+			_, shi, ok1 := typeRangeInt64(x.X.Type())
+			_, dhi, ok2 := typeRangeInt64(to)
+			return ok1 && ok2 && shi < dhi
+		}
+		return false
+	}
+	n := 0
+	for _, fn := range fns {
+		k := 0
+		for _, blk := range fn.Blocks {
+			for _, in := range blk.Instrs {
+				bo, ok := in.(*ssa.BinOp)
+				if !ok || an.IsLogPlumbing(in) {
+					continue
+				}
+				if bo.Op != token.ADD && bo.Op != token.SUB && bo.Op != token.MUL && bo.Op != token.SHL {
+					continue
+				}
+				lo, hi, ok := typeRangeInt64(bo.Type())
+				if !ok || hi == an.PosInf || hi >= 1<<62 {
+					continue // 64-bit: lengths cannot reach the limit
+				}
+				if _, cx := bo.X.(*ssa.Const); cx {
+					if _, cy := bo.Y.(*ssa.Const); cy {
+						continue
+					}
+				}
+				if bo.Op == token.SHL && widening(bo.X, bo.Type()) {
+					continue // assembling a wider word from narrower pieces
+				}
+				if bo.Op == token.MUL && widening(bo.X, bo.Type()) && widening(bo.Y, bo.Type()) {
+					// product of two narrower values: check it anyway (byte*byte fits uint16, but
+					// uint16*uint16 does not fit uint32) — fall through
+				}
+				lx, ly := b.LinOf(bo.X), b.LinOf(bo.Y)
+				var exact an.Lin
+				switch bo.Op {
+				case token.ADD:
+					exact = lx.Add(ly, 1)
+				case token.SUB:
+					exact = lx.Add(ly, -1)
+				case token.MUL:
+					switch {
+					case ly.IsConst():
+						exact = lx.Scale(ly.C)
+					case lx.IsConst():
+						exact = ly.Scale(lx.C)
+					default:
+						continue // product of two unknowns: outside linear arithmetic, not decided
+					}
+				case token.SHL:
+					if !ly.IsConst() || ly.C < 0 || ly.C > 30 {
+						continue
+					}
+					exact = lx.Scale(int64(1) << uint(ly.C))
+				}
+				n++
+				k++
+				up := b.ProveAt(bo, an.LinConst(hi).Add(exact, -1))
+				dn := b.ProveAt(bo, exact.Add(an.LinConst(lo), -1))
+				var trail []string
+				if !up.OK {
+					trail = append(trail, "upper: "+strings.Join(up.Trail, " <- "))
+				}
+				if !dn.OK {
+					trail = append(trail, "lower: "+strings.Join(dn.Trail, " <- "))
+				}
+				r.Check(up.OK && dn.OK, rule, fmt.Sprintf("%s/arith%d", an.FnKey(fn), k), p.Pos(bo.Pos()),
+					fmt.Sprintf("%s arithmetic %s cannot wrap: the exact result stays in [%d, %d] on every path", bo.Type().String(), bo.Op, lo, hi),
+					append([]string{"exact result " + exact.String()}, trail...)...)
+			}
+		}
+	}
+	r.Analysed["narrow-width arithmetic operations ("+rule+")"] = n
+	// the library today has (almost) no such operation: make sure the detector still sees them
+	// where they certainly exist (dependencies)
+	canary := 0
+	for fn := range p.All {
+		if an.InLib(fn) || canary > 50 {
+			continue
+		}
+		for _, blk := range fn.Blocks {
+			for _, in := range blk.Instrs {
+				if bo, ok := in.(*ssa.BinOp); ok && (bo.Op == token.ADD || bo.Op == token.MUL) {
+					if _, hi, ok := typeRangeInt64(bo.Type()); ok && hi != an.PosInf && hi < 1<<62 {
+						canary++
+					}
+				}
+			}
+		}
+	}
+	if canary == 0 {
+		r.Fail("%s canary: no narrow-width arithmetic found in the dependencies either: the detector is broken", rule)
+	}
+	if n == 0 {
+		r.Ob(rule, "narrow-arithmetic/none", "-", an.Discharged, fmt.Sprintf("no +,-,*,<< in an integer type narrower than 64 bits on any API path (%d functions scanned; the detector sees such operations in the dependencies)", len(fns))).Nontrivial = false
+	}
+	return n
+}
+
+// c14LenFieldPairs (N8): where a structure stores a declared length next to the bytes it describes
+// and the serializer writes both, the validator accepts the value only if they agree: assuming
+// declared != len(data) (either direction), no return of the validator that may succeed is
+// reachable (E11 path refutation). Otherwise a validated value serialises to bytes whose length
+// field lies about what follows, and does not parse back. The pairs are a frozen table confirmed by
+// reading the serializers.
+var c14LenPairs = []struct{ root, typ, lenField, dataField string }{
+	{"lease_set2.(*LeaseSet2).Validate", "EncryptionKey", "KeyLen", "KeyData"},
+	{"encrypted_leaseset.(*EncryptedLeaseSet).Validate", "EncryptedLeaseSet", "innerLength", "encryptedInnerData"},
+}
+
+func c14LenFieldPairs(p *an.Prog, r *an.Report, rule string) {
+	b := an.NewBounds(p)
+	for _, lp := range c14LenPairs {
+		root := p.Func(lp.root)
+		key := lp.typ + "." + lp.lenField + "~" + lp.dataField
+		if root == nil {
+			r.Ob(rule, key, "-", an.Undecided, "validator "+lp.root+" not found: the declared-length rule must be re-anchored")
+			continue
+		}
+		// the function in Validate's closure (same package) that reads both fields of its subject
+		var cands []*ssa.Function
+		for f := range libClosure(p, root) {
+			if an.FnPkgPath(f) == an.FnPkgPath(root) && len(f.Blocks) > 0 {
+				cands = append(cands, f)
+			}
+		}
+		sort.Slice(cands, func(i, j int) bool { return an.FnKey(cands[i]) < an.FnKey(cands[j]) })
+		checked := 0
+		for _, fn := range cands {
+			if c14LenPairIn(p, r, b, rule, key, fn, lp.typ, lp.lenField, lp.dataField) {
+				checked++
+			}
+		}
+		if checked == 0 {
+			r.Ob(rule, key, p.FnPos(root), an.Violated, fmt.Sprintf("nothing reachable from %s compares %s with len(%s): a value whose declared length disagrees with its data is not rejected", lp.root, lp.lenField, lp.dataField))
+		}
+	}
+}
+
+// c14LenPairIn checks one function; false when the function does not read both fields.
+func c14LenPairIn(p *an.Prog, r *an.Report, b *an.Bounds, rule, key string, fn *ssa.Function, typ, lenField, dataField string) bool {
+	lp := struct{ typ, lenField, dataField, validator string }{typ, lenField, dataField, an.FnKey(fn)}
+	{
+		// the values that read the two fields of the validator's own subject
+		var lv, dv ssa.Value
+		isSubject := func(base ssa.Value) bool {
+			for {
+				switch x := base.(type) {
+				case *ssa.Parameter:
+					_, name := an.NamedOf(an.Deref(x.Type()))
+					return name == lp.typ
+				case *ssa.UnOp:
+					base = x.X
+				case *ssa.Alloc:
+					// a by-value parameter spilled to a local
+					for _, ref := range *x.Referrers() {
+						if st, ok := ref.(*ssa.Store); ok && st.Addr == ssa.Value(x) {
+							if prm, ok := st.Val.(*ssa.Parameter); ok {
+								_, name := an.NamedOf(an.Deref(prm.Type()))
+								return name == lp.typ
+							}
+						}
+					}
+					return false
+				default:
+					return false
+				}
+			}
+		}
+		for _, blk := range fn.Blocks {
+			for _, in := range blk.Instrs {
+				var base ssa.Value
+				var t types.Type
+				idx := -1
+				var val ssa.Value
+				switch x := in.(type) {
+				case *ssa.Field:
+					base, t, idx, val = x.X, x.X.Type(), x.Field, x
+				case *ssa.UnOp:
+					if fa, ok := x.X.(*ssa.FieldAddr); ok && x.Op == token.MUL {
+						base, t, idx, val = fa.X, an.Deref(fa.X.Type()), fa.Field, x
+					}
+				}
+				if idx < 0 || !isSubject(base) {
+					continue
+				}
+				st, ok := t.Underlying().(*types.Struct)
+				if !ok || idx >= st.NumFields() {
+					continue
+				}
+				switch st.Field(idx).Name() {
+				case lp.lenField:
+					if lv == nil {
+						lv = val
+					}
+				case lp.dataField:
+					if dv == nil {
+						dv = val
+					}
+				}
+			}
+		}
+		if lv == nil || dv == nil {
+			return false
+		}
+		declared, actual := b.LinOf(lv), b.LenOf(dv)
+		over := b.OkFeasible(fn, []an.Fact{{L: declared.Add(actual, -1).Add(an.LinConst(1), -1), Why: "declared > len(data)"}})
+		under := b.OkFeasible(fn, []an.Fact{{L: actual.Add(declared, -1).Add(an.LinConst(1), -1), Why: "declared < len(data)"}})
+		var facts []string
+		if over {
+			facts = append(facts, "a success return is reachable with "+lp.lenField+" > len("+lp.dataField+")")
+		}
+		if under {
+			facts = append(facts, "a success return is reachable with "+lp.lenField+" < len("+lp.dataField+")")
+		}
+		r.Check(!over && !under, rule, key+"/"+an.FnKey(fn), p.FnPos(fn), fmt.Sprintf("%s accepts only values whose %s equals len(%s)", lp.validator, lp.lenField, lp.dataField), facts...)
 	}
 	return true
 }
